@@ -1366,7 +1366,7 @@ impl Evaluator {
                     let valid = |y: i64, m: i64, d: i64, hh: i64, mm: i64, ss: i64| -> bool {
                         let leap = (y % 4 == 0 && y % 100 != 0) || y % 400 == 0;
                         let dim = [31, if leap { 29 } else { 28 }, 31, 30, 31, 30, 31, 31, 30, 31, 30, 31];
-                        (1970..=9999).contains(&y) && (1..=12).contains(&m) && d >= 1 && d <= dim[(m - 1) as usize] && hh <= 23 && mm <= 59 && ss <= 59
+                        (1000..=9999).contains(&y) && (1..=12).contains(&m) && d >= 1 && d <= dim[(m - 1) as usize] && hh <= 23 && mm <= 59 && ss <= 59
                     };
                     // the same with a fraction of up to six digits (`%.f`): microseconds are kept
                     if f == "parse_time" && fmt == "%Y-%m-%dT%H:%M:%S%.f" && b.len() > 20 && b.len() <= 26 && b[19] == b'.' && b[4] == b'-' && b[7] == b'-' && b[10] == b'T' && b[13] == b':' && b[16] == b':' {
